@@ -91,6 +91,8 @@ def main():
         sh("git -C /repo checkout -- .")
         for ev, text in saved.items():
             open(ev, "w").write(text)
+    if ns.no_confirm and os.path.exists(dst + "/meta.json"):
+        ran = json.load(open(dst + "/meta.json")).get("confirmed") or ran
     meta.update({"seed_id": ns.seedid, "confirmed": ran, "checks": results, "tier": ns.tier,
                  "detected": any(r["exit"] == 1 for r in results.values())})
     json.dump(meta, open(dst + "/meta.json", "w"), indent=1)
